@@ -10,13 +10,15 @@
     * `fill_spec`: a counted loop whose iteration m hands out `buf + c·m` to a writer of c words `D m` (and nothing else)
       leaves `(range N).flatMap D` in the first c·N words.  Used for the leaf loops (c = 4; c = 8 for the AVX512 builders
       in Lemmas/BridgeMerkle512.lean) and for the inner loop over the column batches.
-    * `mtb_seq_generic`, `mtb_avx_generic` (by unfolding only): the two generated batched builders are ONE text
-      (`mtbInnerG`, `mtbLeafG`, `mtTailG`) instantiated with the translated linear hash and capacity-sized hash they call.
+    * `mtb_seq_generic`, `mtb_avx_generic`: the two generated batched builders EQUAL the reference text
+      (`mtbInnerG`, `mtbLeafG`, `mtTailG`) instantiated with the translated linear hash and capacity-sized hash they call;
+      proved extensionally (`gen_equiv`, Lemmas/BridgeEquiv.lean), see Lemmas/BridgeMerkle.lean.
     * `mtbGenG_spec`: for rows = 2^k (k ≤ 48), rows·cols·dim < 2^64, batch_size ≥ 1, cols + batch_size < 2^62,
       fuel > rows, > cols·dim, > 4·(cols + 1).
   num_cols = 0: nbatches = 1, nlastb = 0: the leaf is lh (lh []) on both sides.
 -/
 import GoldilocksVerif.Lemmas.BridgeMerkle
+set_option linter.unusedSimpArgs false
 
 namespace GoldilocksVerif
 open Model Gen.MerkleGen
@@ -157,34 +159,18 @@ theorem mtb_seq_generic (fuel : Nat) (tree input : Region) (num_cols num_rows ba
     Pos_merkletree_batch_seq fuel tree input num_cols num_rows batch_size nThreads dim =
       mtbGenG Gen.LinearHashGen.Pos_linear_hash_seq Gen.PosScalar.Pos_hash_seq fuel tree input num_cols num_rows
         batch_size dim := by
-  have e1 : Pos_merkletree_batch_seq_loop1 = mtbInnerG Gen.LinearHashGen.Pos_linear_hash_seq := by
-    funext fuel input nc bs dim nb nl i j st; rfl
-  have e2 : Pos_merkletree_batch_seq_loop2 = mtbLeafG Gen.LinearHashGen.Pos_linear_hash_seq := by
-    funext fuel input nc bs dim nb nl i st; unfold Pos_merkletree_batch_seq_loop2 mtbLeafG; rw [e1]
-  have e3 : Pos_merkletree_batch_seq_loop3 = mtNodeG Gen.PosScalar.Pos_hash_seq := by
-    funext p ni i st; rfl
-  have e4 : Pos_merkletree_batch_seq_loop4 = mtLevelG Gen.PosScalar.Pos_hash_seq := by
-    funext st; unfold Pos_merkletree_batch_seq_loop4 mtLevelG; rw [e3]
-  unfold Pos_merkletree_batch_seq mtbGenG
-  rw [e2, e4]
-  rfl
+  delta mtbGenG mtTailG mtbLeafG mtbInnerG mtLevelG mtNodeG nlastBV nbBV
+  delta_prefix "Gen.MerkleGen."
+  gen_equiv
 
 theorem mtb_avx_generic (fuel : Nat) (tree input : Region) (num_cols num_rows batch_size : BitVec 64) (nThreads : Int)
     (dim : BitVec 64) :
     Pos_merkletree_batch_avx fuel tree input num_cols num_rows batch_size nThreads dim =
       mtbGenG Gen.LinearHashGen.Pos_linear_hash Gen.PosAvx2.Pos_hash fuel tree input num_cols num_rows
         batch_size dim := by
-  have e1 : Pos_merkletree_batch_avx_loop1 = mtbInnerG Gen.LinearHashGen.Pos_linear_hash := by
-    funext fuel input nc bs dim nb nl i j st; rfl
-  have e2 : Pos_merkletree_batch_avx_loop2 = mtbLeafG Gen.LinearHashGen.Pos_linear_hash := by
-    funext fuel input nc bs dim nb nl i st; unfold Pos_merkletree_batch_avx_loop2 mtbLeafG; rw [e1]
-  have e3 : Pos_merkletree_batch_avx_loop3 = mtNodeG Gen.PosAvx2.Pos_hash := by
-    funext p ni i st; rfl
-  have e4 : Pos_merkletree_batch_avx_loop4 = mtLevelG Gen.PosAvx2.Pos_hash := by
-    funext st; unfold Pos_merkletree_batch_avx_loop4 mtLevelG; rw [e3]
-  unfold Pos_merkletree_batch_avx mtbGenG
-  rw [e2, e4]
-  rfl
+  delta mtbGenG mtTailG mtbLeafG mtbInnerG mtLevelG mtNodeG nlastBV nbBV
+  delta_prefix "Gen.MerkleGen."
+  gen_equiv
 
 /-! ### the batch arithmetic -/
 
